@@ -76,6 +76,11 @@ type Exec struct {
 	undef map[string]Val
 	retCount int
 	alias map[string]string
+	parent *Exec // inlined helper: the calling activation
+	inlineDepth int
+	inlined bool
+	entryGuard string
+	rets []inlineRet
 }
 
 type unsupported struct{ msg string }
@@ -351,6 +356,9 @@ func (x *Exec) execBlock(b *ssa.BasicBlock) {
 	if b.Index == 0 {
 		ins = []*State{x.st}
 		conds = []string{"true"}
+		if x.inlined && x.entryGuard != "" {
+			conds = []string{x.entryGuard}
+		}
 	} else {
 		for _, p := range b.Preds {
 			if x.isBackEdge(p, b) {
@@ -1548,6 +1556,14 @@ func (x *Exec) assignKey(s string) assignItem {
 
 func (x *Exec) returnInstr(in *ssa.Return) {
 	x.retSites++
+	if x.inlined {
+		var rs []Val
+		for _, r := range in.Results {
+			rs = append(rs, x.materialize(x.val(r)))
+		}
+		x.rets = append(x.rets, inlineRet{guard: x.guard, vals: rs, st: x.st.clone()})
+		return
+	}
 	if x.fc == nil {
 		return
 	}
